@@ -1,4 +1,4 @@
-import St4sd.Model.Cache
+import St4sd.Model.CacheViews
 /-!
 # C08 — Configuration queries always reflect the latest updates
 
@@ -9,6 +9,12 @@ getters), `touchComp` / `touchVars` (reference getters without a write).
 The invalidation modelled is the repaired one (component name taken literally,
 `fixes/C08-cache-regex-escape.diff`); the unrepaired interpretation of the name as a regular expression
 is refuted in `Witness/C08.lean`.
+
+Second layer (`Model/CacheViews.lean`): the views of a component on an experiment graph
+(`ComponentSpecification`, the node accessors, `WorkflowGraph.*ForNode`, `FlowIRExperimentConfiguration.*ForNode`,
+`data.Job`, `FlowIRConcrete`) are projections of the one query, updates through any of them are the same update
+of the one description: `view_fresh_step`, `all_views_agree`, `section_view_is_part_of_configuration`,
+`update_via_any_entry`, `entry_point_irrelevant`, `grun_state`, `grun_coherent`, `views_depend_on_updates_only`.
 
 The clause "a returned configuration is a private copy" is about aliasing of Python objects, which a pure
 model cannot express: it is decided by the correspondence only (harness/c08.py mutates every returned
@@ -403,6 +409,194 @@ theorem readonly_history_is_invisible (fuel : Nat) (d : Desc) (ops : List Op) (h
   rw [this]
   exact queryF_fresh_step fuel (init d) (inv_init fuel d) i n P f
 
+
+/-! ### setters store exactly what they are given -/
+
+private theorem get_erase_self (k : S) : ∀ d : Fields, Tree.get (Tree.erase d k) k = none := by
+  intro d
+  induction d with
+  | nil => rfl
+  | cons e r ih =>
+    obtain ⟨k', w⟩ := e
+    by_cases h : k' = k
+    · simp only [Tree.erase, h, if_true, ih]
+    · simp only [Tree.erase, h, if_false, Tree.get, ih]
+
+private theorem get_append_none (k : S) (w : Val) : ∀ a : Fields, Tree.get a k = none →
+    Tree.get (a ++ [(k, w)]) k = some w := by
+  intro a
+  induction a with
+  | nil => intro _; simp [Tree.get]
+  | cons e r ih =>
+    obtain ⟨k', w'⟩ := e
+    intro h
+    by_cases hk : k' = k
+    · simp [Tree.get, hk] at h
+    · simp only [Tree.get, hk, if_false] at h
+      simp only [List.cons_append, Tree.get, hk, if_false]
+      exact ih h
+
+/-- `d[k] = v` then `d[k]` is `v` -/
+theorem get_set_self (d : Fields) (k : S) (v : Val) : Tree.get (Tree.set d k v) k = some v :=
+  get_append_none k v _ (get_erase_self k d)
+
+private theorem findComp_modComp_self (f : Fields → Fields) (i : Nat) (n : S) : ∀ cs c,
+    findComp cs i n = some c → findComp (modComp f i n cs) i n = some { c with body := f c.body } := by
+  intro cs
+  induction cs with
+  | nil => intro c h; cases h
+  | cons x r ih =>
+    intro c h
+    by_cases hx : x.stage = i ∧ x.name = n
+    · simp only [findComp, hx, and_self, if_true, Option.some.injEq] at h
+      subst h
+      simp only [modComp, hx, and_self, if_true, findComp]
+    · simp only [findComp, hx, if_false] at h
+      simp only [modComp, hx, if_false, findComp]
+      exact ih c h
+
+private theorem cacheGet_invalidate (i : Nat) (n P : S) : ∀ cache, cacheGet (invalidate i n cache) ⟨P, i, n⟩ = none := by
+  intro cache
+  induction cache with
+  | nil => rfl
+  | cons e r ih =>
+    obtain ⟨l, w⟩ := e
+    unfold invalidate at ih ⊢
+    by_cases hinv : invalidates i n l = true
+    · rw [List.filter_cons_of_neg (by simp [hinv])]
+      exact ih
+    · rw [List.filter_cons_of_pos (by simp [hinv])]
+      have hne : sameLabel l ⟨P, i, n⟩ = false := by
+        cases hs : sameLabel l ⟨P, i, n⟩ with
+        | false => rfl
+        | true =>
+          exfalso
+          apply hinv
+          obtain ⟨lp, li, ln⟩ := l
+          simp only [sameLabel, decide_eq_true_eq] at hs
+          obtain ⟨h1, h2, h3⟩ := hs
+          subst h1; subst h2; subst h3
+          exact invalidates_self _ _ _
+      simp only [cacheGet, hne]
+      exact ih
+
+/-- **setVar_stores_exactly**: a successful `set_component_variable(comp, x, v)` leaves exactly `v` under `x` in the
+component - whatever was there before, be it the same value, one that compares equal in some weaker sense (`1`,
+`1.0`, `True` are three different `Val`s) or nothing - and no cached configuration of the component survives on any
+platform; so the next query resolves the description that holds `v` -/
+theorem setVar_stores_exactly (fuel : Nat) (s : St) (i : Nat) (n x : S) (v : Val) (c : Comp) (vs : Fields)
+    (hc : findComp s.desc.comps i n = some c) (hv : get c.body "variables".toList = some (.dict vs)) :
+    let s' := (step fuel s (.setVar i n x v)).1
+    (∃ c' vs', findComp s'.desc.comps i n = some c' ∧ get c'.body "variables".toList = some (.dict vs') ∧
+      get vs' x = some v) ∧ ∀ P, cacheGet s'.cache ⟨P, i, n⟩ = none := by
+  intro s'
+  have hs' : s' = ⟨setComps s.desc (modComp (fun b => set b "variables".toList (.dict (set vs x v))) i n s.desc.comps),
+                   invalidate i n s.cache⟩ := by
+    simp only [s', step, hc, hv]
+  rw [hs']
+  refine ⟨⟨_, set vs x v, findComp_modComp_self _ i n _ c hc, get_set_self _ _ _, get_set_self _ _ _⟩, ?_⟩
+  intro P
+  exact cacheGet_invalidate i n P s.cache
+
+/-- … and the query that follows answers the resolution of that description (on every platform) -/
+theorem query_after_setVar_is_fresh (fuel : Nat) (d : Desc) (ops : List Op) (i : Nat) (n x P : S) (v : Val) :
+    let s' := (step fuel (run fuel (init d) ops).1 (.setVar i n x v)).1
+    (step fuel s' (.query i n P)).2 = resolve s'.desc P i n false fuel :=
+  query_fresh_step fuel _ (step_preserves fuel _ _ (cache_coherent fuel ops _ (inv_init fuel d))) i n P
+
+/-! ### the graph layer: many views, many entry points, one description -/
+
+/-- an update arriving through any object (`ComponentSpecification.setOption`, the node's `setOption`,
+`WorkflowGraph.setOptionForNode`, `FlowIRExperimentConfiguration.setOptionForNode`, `Job.setOption`, the
+`FlowIRConcrete` mutators) is the same step of the one description + cache -/
+theorem update_via_any_entry (fuel : Nat) (P : S) (s : St) (e : Entry) (u : Op) :
+    gstep fuel P s (.via e u) = step fuel s u := rfl
+
+/-- the state after a history on the graph layer is the state after the history of `FlowIRConcrete` calls it
+boils down to - so everything proved about `run` (coherence, freshness, read-only operations) carries over -/
+theorem grun_state (fuel : Nat) (P : S) : ∀ (gops : List GOp) (s : St),
+    (grun fuel P s gops).1 = (run fuel s (gops.map (lowerOp P))).1 := by
+  intro gops
+  induction gops with
+  | nil => intro s; rfl
+  | cons g r ih =>
+    intro s
+    simp only [grun, run, List.map, gstep]
+    exact ih _
+
+/-- after ANY history on the graph layer the cache is coherent -/
+theorem grun_coherent (fuel : Nat) (P : S) (gops : List GOp) (s : St) (h : Inv fuel s) :
+    Inv fuel (grun fuel P s gops).1 := by
+  rw [grun_state]
+  exact cache_coherent fuel _ s h
+
+/-- **view_fresh**: in a coherent state a read of any view through any object answers that part of what
+resolving the CURRENT description from scratch gives -/
+theorem view_fresh_step (fuel : Nat) (P : S) (s : St) (hinv : Inv fuel s) (e : Entry) (v : View) (i : Nat) (n : S)
+    (f : Flags) : (gstep fuel P s (.view e v i n f)).2 = project v (resolveF s.desc P i n f fuel) := by
+  simp only [gstep, lowerOp, present]
+  rw [queryF_fresh_step fuel s hinv]
+
+/-- **all_views_agree**: after ANY history of reads and updates through any mix of objects, the same question
+asked through two different objects gets the same answer, namely the from-scratch resolution of the current
+description seen through the view (no object keeps an answer of its own) -/
+theorem all_views_agree (fuel : Nat) (P : S) (d : Desc) (gops : List GOp) (e e' : Entry) (v : View) (i : Nat) (n : S)
+    (f : Flags) :
+    let s := (grun fuel P (init d) gops).1
+    (gstep fuel P s (.view e v i n f)).2 = (gstep fuel P s (.view e' v i n f)).2 ∧
+    (gstep fuel P s (.view e v i n f)).2 = project v (resolveF s.desc P i n f fuel) := by
+  intro s
+  have hinv : Inv fuel s := grun_coherent fuel P gops _ (inv_init fuel d)
+  exact ⟨by rw [view_fresh_step fuel P s hinv, view_fresh_step fuel P s hinv], view_fresh_step fuel P s hinv e v i n f⟩
+
+/-- the properties built on the configuration (`commandDetails`, `resourceManager`, `workflowAttributes`,
+`customAttributes`, `Job.type`, …) hand out the corresponding part of what the configuration view - asked through
+any other object - hands out at that moment -/
+theorem section_view_is_part_of_configuration (fuel : Nat) (P : S) (d : Desc) (gops : List GOp) (e e' : Entry)
+    (ks : List S) (i : Nat) (n : S) (f : Flags) :
+    let s := (grun fuel P (init d) gops).1
+    (gstep fuel P s (.view e (.path ks) i n f)).2 =
+      project (.path ks) (gstep fuel P s (.view e' .configuration i n f)).2 := by
+  intro s
+  have hinv : Inv fuel s := grun_coherent fuel P gops _ (inv_init fuel d)
+  rw [view_fresh_step fuel P s hinv, view_fresh_step fuel P s hinv]
+  cases resolveF s.desc P i n f fuel <;> rfl
+
+/-- **entry_point_irrelevant**: a whole history (final state and every answer) is the same when every call is
+made through one fixed object instead -/
+theorem entry_point_irrelevant (fuel : Nat) (P : S) (e : Entry) : ∀ (gops : List GOp) (s : St),
+    grun fuel P s (gops.map (GOp.withEntry e)) = grun fuel P s gops := by
+  intro gops
+  induction gops with
+  | nil => intro s; rfl
+  | cons g r ih =>
+    intro s
+    have hg : gstep fuel P s (g.withEntry e) = gstep fuel P s g := by cases g <;> rfl
+    simp only [List.map, grun, hg, ih]
+
+private theorem lowerOp_readOnly (P : S) (g : GOp) : (lowerOp P g).readOnly = g.readOnly := by
+  cases g <;> rfl
+
+private theorem filter_lowerOp (P : S) : ∀ gops : List GOp,
+    (gops.map (lowerOp P)).filter (fun o => !o.readOnly) = (gops.filter (fun g => !g.readOnly)).map (lowerOp P) := by
+  intro gops
+  induction gops with
+  | nil => rfl
+  | cons g r ih =>
+    simp only [List.map, List.filter, lowerOp_readOnly]
+    cases g.readOnly <;> simp [ih]
+
+/-- **views_depend_on_updates_only**: what a view answers after a history is what it answers after the same
+history with every read (through whatever object) erased -/
+theorem views_depend_on_updates_only (fuel : Nat) (P : S) (d : Desc) (gops : List GOp) (e : Entry) (v : View)
+    (i : Nat) (n : S) (f : Flags) :
+    (gstep fuel P (grun fuel P (init d) gops).1 (.view e v i n f)).2 =
+    (gstep fuel P (grun fuel P (init d) (gops.filter (fun g => !g.readOnly))).1 (.view e v i n f)).2 := by
+  rw [view_fresh_step fuel P _ (grun_coherent fuel P gops _ (inv_init fuel d)),
+      view_fresh_step fuel P _ (grun_coherent fuel P _ _ (inv_init fuel d)),
+      grun_state, grun_state, ← filter_lowerOp,
+      run_desc_erase_readonly fuel (gops.map (lowerOp P)) (init d) (init d) rfl]
+
 /-! ### non-vacuity: a history whose two identical queries must (and do) answer differently -/
 
 private def d1 : Desc :=
@@ -429,5 +623,26 @@ example : (run 50 (init d1) [.queryF 0 ['c'] defaultName ⟨true, false, true, f
 
 /-- … and the second query of the pair is a cache hit (the cache is non-empty after the history) -/
 example : (run 50 (init d1) [.query 0 ['c'] defaultName]).1.cache.length = 1 := by rfl
+
+/-- re-setting a variable to a value that Python calls equal (`1` -> `1.0`) is an update like any other: the second
+query of the pair answers `1.0` -/
+example : (run 50 (init d1) [.setVar 0 ['c'] ['g'] (.int 1), .query 0 ['c'] defaultName,
+                            .setVar 0 ['c'] ['g'] (.flt "1.0".toList), .query 0 ['c'] defaultName]).2.map args
+    = [none, some (.str ['1']), none, some (.str "1.0".toList)] := by rfl
+
+/-- graph layer: read `command.arguments` through the `ComponentSpecification`, update the global variable
+through `FlowIRConcrete` and the component's own variable through `WorkflowGraph.setOptionForNode`, read through the
+`ComponentSpecification` and through a `Job`: both see every update -/
+example : (grun 50 defaultName (init d1)
+      [.view .spec (.path ["command".toList, "arguments".toList]) 0 ['c'] (Flags.std false),
+       .via .concrete (.setGlobalVar ['g'] (.str ['2'])),
+       .view .spec (.path ["command".toList, "arguments".toList]) 0 ['c'] (Flags.std false),
+       .via .graph (.setOption 0 ['c'] ['g'] (.flt "1.0".toList)),
+       .view .job (.path ["command".toList, "arguments".toList]) 0 ['c'] (Flags.std false),
+       .view .spec (.path ["variables".toList, ['g']]) 0 ['c'] (Flags.std false),
+       .view .node (.path ["nowhere".toList]) 0 ['c'] (Flags.std false)]).2.map
+        (fun a => match a with | .ok v => some v | .error _ => none)
+    = [some (.str ['1']), some .null, some (.str ['2']), some .null, some (.str "1.0".toList),
+       some (.flt "1.0".toList), none] := by rfl
 
 end St4sd.C08
